@@ -171,6 +171,28 @@ theorem source_cer_length_form (t : Tag) (sub : Bytes) (isCons isOct : Bool) (hn
     cases encodeLength sub.length <;> simp [Kernels.liftLen]
   · simp [he, Kernels.liftLen]
 
+/-- **DER of an INTEGER, end to end at the source level**: the octets the translated `to_bytes` writes, wrapped by the
+    translated header loop of `AbstractItemEncoder.encode` (calling the translated `encodeTag` / `encodeLength`) under the
+    INTEGER tag, are the X.690 distinguished encoding `X690.der` of that integer - for every integer whose contents fit
+    the length octets (no translated piece is left to the hand model; `X690.der` shares no code with any of them) -/
+theorem source_der_integer_is_x690 (z : Int) (l : Bytes) (hl : encodeLength (intToBytes z).length = some l) :
+    ∃ c : Py.Tup, GenK.toBytes z true 0 = .ok c ∧
+      GenK.wrapTags false false [[0, 0, 2]] true c false false =
+        .ok (Kernels.bytesInts ((X690.der (.prim .integer) (.int z)).getD [])) := by
+  refine ⟨Kernels.bytesInts (intToBytes z), Kernels.toBytes_kernel z, ?_⟩
+  have ht : ([0, 0, 2] : Py.Tup) = Kernels.tagTriple ⟨.universal, false, 2⟩ := rfl
+  have hne : intToBytes z ≠ [] := intToBytes_ne_nil z
+  have he : (intToBytes z).isEmpty = false := by cases h : intToBytes z <;> simp_all
+  have h := Kernels.wrapTags_kernel false false true false false ⟨.universal, false, 2⟩ [] (intToBytes z)
+  simp only [List.map_cons, List.map_nil] at h
+  rw [ht, h, Kernels.wrapTags_single]
+  simp only [he, Bool.false_and, Bool.and_false, Bool.false_eq_true, if_false, hl, List.append_nil, Kernels.liftLen]
+  congr 2
+  have hder : X690.derElem (.prim .integer) (.int z) = some (X690.wrap .universal false 2 (X690.intOctets z)) := by
+    simp [X690.derElem, X690.derBody, PrimTy.univNum]
+  rw [identifier_is_x690, length_is_x690 _ l hl, integer_is_x690]
+  simp [X690.der, hder, X690.wrap, Option.getD]
+
 /-- non-vacuity: [APPLICATION 16384] constructed; length 300; OID 2.999.3; -5 * 2^3, 12 * 2^298 = 3 * 2^300 (two exponent octets) -/
 example : GenK.realBin (-1) 5 2 3 = .ok [192, 3, 5] := by rfl
 example : GenK.realBin 1 12 2 298 = .ok [129, 1, 44, 3] := by rfl
